@@ -192,8 +192,11 @@ def audit(pid: str):
 class Driver:
     """Batch client of the Lean model driver.  `run(lines)` returns one output line per input line."""
 
-    def __init__(self):
-        if os.path.exists(DRIVER_BIN):
+    def __init__(self, pid=None):
+        if os.environ.get('PGDRIVER_INTERP') and pid:
+            # development mode: interpret only this property's driver (no dependence on other modules)
+            self.cmd = ['lake', 'env', 'lean', '--run', 'Mains/%s.lean' % pid]
+        elif os.path.exists(DRIVER_BIN):
             self.cmd = [DRIVER_BIN]
         else:
             self.cmd = ['lake', 'env', 'lean', '--run', 'Driver.lean']
@@ -261,7 +264,7 @@ class Ctx:
         self.seed = seed
         self.rng = random.Random('%s-%d' % (pid, seed))
         self.replay = replay
-        self.driver = Driver()
+        self.driver = Driver(pid)
         self.streams = {}
         self.evaluations = 0
         self.nontrivial = set()
